@@ -173,7 +173,7 @@ macro_rules! transcript_buf {
 }
 
 fn catch(f: impl FnOnce() -> Vec<String> + std::panic::UnwindSafe) -> Vec<String> {
-    match std::panic::catch_unwind(f) {
+    match crate::util::quiet_catch(f) {
         Ok(v) => v,
         Err(_) => vec!["PANIC".into()],
     }
@@ -337,7 +337,7 @@ pub fn c14(ctx: &mut Ctx, tier: &str, seed: u64) {
         let ops: Vec<(usize, &str)> = (0..n).map(|_| (rng.below(6), *rng.pick(&pool))).collect();
         let line = format!("hist {} {} {}", gen::e(win), hex(&start), ops.iter().map(|(k, a)| match k { 0 | 1 => format!("push:{}", hex(a.as_bytes())), 2 => "pop".into(), 3 => format!("setfn:{}", hex(a.as_bytes())), 4 => format!("setext:{}", hex(a.as_bytes())), _ => format!("pushc:{}", hex(a.as_bytes())) }).collect::<Vec<_>>().join(" "));
         ctx.case(true, &line);
-        let res = std::panic::catch_unwind(|| {
+        let res = crate::util::quiet_catch(|| {
             macro_rules! go {
                 ($B:ty, $U:ty) => {{
                     let mut b = <$B>::from(start.as_slice());
@@ -601,7 +601,7 @@ pub fn c18(ctx: &mut Ctx, tier: &str, seed: u64) {
             let started = std::time::Instant::now();
             let tb = t_bytes(win, s, a);
             let tt = t_typed(win, s, a);
-            let h = std::panic::catch_unwind(|| if win { hash_chunks(WindowsPath::new(s)).len() } else { hash_chunks(UnixPath::new(s)).len() });
+            let h = crate::util::quiet_catch(|| if win { hash_chunks(WindowsPath::new(s)).len() } else { hash_chunks(UnixPath::new(s)).len() });
             let el = started.elapsed();
             ctx.case(true, (name, a));
             ctx.tally(&format!("long:{}", name.split(':').nth(1).unwrap_or("")));
